@@ -101,7 +101,7 @@ UNIT = dict(
     name="c18_withdrawal", mode="K", properties=["C18", "C02", "C04", "C01"],
     shim_files=["shims/common.rs", "shims/seq.rs"],
     prelude=PRELUDE,
-    use="use crate::accounts::StateWriteExt as _;",
+    use="use crate::accounts::*;",
     items=[
         dict(file=ACC, path="struct InsufficientFunds", module="accounts"),
         dict(file=ACC, path="trait StateWriteExt/fn increase_balance", module="accounts"),
